@@ -35,7 +35,7 @@ COMPONENTS = {"real": ["Model.__init__/update/finish", "ladim.main.main (sampled
 ASSUMPTIONS = ["the shims override only methods the base classes have and delegate unchanged"]
 TIERS = {"quick": dict(runs=500, budget_s=50, shrink=100),
          "thorough": dict(runs=50000, budget_s=900, shrink=200)}
-REQUIRED_PROBES = ["cold", "warm", "via_main", "plugin_relative_path", "plugin_module_name", "plugin_same_basename_two_dirs", "plugin_dotted_stem", "grid_plugin_with_close", "ibm_kill_checked",
+REQUIRED_PROBES = ["cold", "warm", "via_main", "plugin_relative_path", "plugin_module_name", "plugin_same_basename_two_dirs", "plugin_dotted_stem", "grid_plugin_with_close", "plain_run_before_and_after", "ibm_kill_checked",
                    "late_release", "scalar_in_record"]
 
 PROFILE = gen.profile(
@@ -69,6 +69,8 @@ def generate(seed: int, tier: str, idx: int) -> dict:
         plan["main"] = False
         gen.make_restartable(sc)
     plan["grid_close"] = s.chance(0.3)      # the user's grid plug-in has a close() of its own
+    # the same plain set-up (no plug-in anywhere, no IBM section) run before and after the run with the plug-ins
+    plan["isolation"] = plan["start"] == "cold" and s.chance(0.3)
     # the other plug-in points (grid, forcing, output, state, time, release, tracker) by path or by dotted module name
     plan["by_name"] = [m for m in ("grid", "forcing", "output", "state", "time", "release", "tracker") if s.chance(0.3)]
     sc["plan"] = plan
@@ -265,6 +267,21 @@ def execute(sc) -> Result:
                 if cfg.get(sec, {}).get("module", "").endswith("shim.py"):
                     cfg[sec]["module"] = "ladsim.plugins.shim"
             return cfg
+        def plain_run():
+            """the set-up with every module left to its default and without an IBM section, in a directory of its own"""
+            def drop(cfg):
+                cfg.pop("ibm", None)
+                return cfg
+            r = driver.run_scenario(sc, None, shims=False, cfg_edit=drop, rng_seed=7, record=True)
+            res.executions += 1
+            try:
+                R_ = readback.Records(readback.list_output_files(r.dir))
+                foreign_calls = [f"{c[0]}.{c[1]}" for c in r.rec.calls][:6] + list(r.rec.plugin_marks)[:3]
+                return r.error, [(x["fname"], x["time"], x["data"]) for x in R_.recs], R_.errors, foreign_calls
+            finally:
+                world.rm_dir(r.dir)
+
+        before = plain_run() if pl.get("isolation") else None
         if pl["start"] == "cold":
             run = driver.run_scenario(sc, d, cfg_edit=edit, use_main=pl["main"], probe_fracs=(0.0,))
             account_run(res, run, sc)
@@ -340,6 +357,36 @@ def execute(sc) -> Result:
                 else:
                     continue
                 break
+        if before is not None:
+            # a run is configured by its own configuration alone: what ran earlier in the same process (plug-ins given
+            # by path or name, an IBM) leaves no trace in a later run that does not ask for it
+            after = plain_run()
+            res.probes["plain_run_before_and_after"] += 1
+            if after[3]:
+                res.add(Violation("C19.isolation", None, "plain run (no plug-ins, no IBM) after the run with plug-ins",
+                                  f"plug-in code of the earlier run was called: {after[3]}", "only LADiM's own modules run"))
+            if after[0] is not None:
+                # the set-up is valid and has just been run with the plug-ins: stripped of them it must run as well
+                res.add(Violation("C19.isolation", None, "plain run (no plug-ins, no IBM) after the run with plug-ins",
+                                  after[0].brief(), "runs to the end" + ("" if before[0] is None else
+                                                                         " (it also failed before: " + before[0].brief() + ")")))
+            elif before[0] is None:
+                from ladsim.oracles.c07 import compare_records
+
+                diff = None
+                if len(before[1]) != len(after[1]):
+                    diff = f"{len(after[1])} records instead of {len(before[1])}"
+                else:
+                    for (fa, ta, da), (fb, tb, db) in zip(before[1], after[1]):
+                        diff = compare_records({"time": ta, "data": da}, {"time": tb, "data": db})
+                        if diff is None and fa != fb:
+                            diff = f"file {fb} instead of {fa}"
+                        if diff:
+                            diff = f"record at {ta}: {diff}"
+                            break
+                if diff:
+                    res.add(Violation("C19.isolation", None, "plain run (no plug-ins, no IBM) repeated after the run with plug-ins",
+                                      diff, "the same output as before that run"))
         stem = "out" if pl["start"] == "cold" else "warm"
         R = readback.Records(readback.list_output_files(d, stem))
         dt = truth.dt_s(sc)
